@@ -1088,6 +1088,14 @@ func (d *dlgWorld) judgeEmissionsC04(prop string) {
 					w.stat("dontcare:duplicate-of-terminating-request")
 					continue
 				}
+				if mod.cross {
+					// never pinned at this listen entry (the open finding about listen entries that do not share their
+					// dialog tables): copies of one request are load-balanced apart - the same finding, reported under its rule
+					w.Viol = append(w.Viol, Violation{Prop: prop, Rule: "in-dialog-request-left-its-backend", Msg: id,
+						Sig:    fmt.Sprintf("type=%s;dir=%s;method=several-backends;sameURI=%v;crossListener=true", mod.typ, sub.S["dir"], mod.op.S["fromURI"] == mod.op.S["toURI"]),
+						Detail: fmt.Sprintf("request %s of dialog %s (subscriber's peer learned through another listen entry) was emitted to %v", id, mod.id, dsts)})
+					continue
+				}
 				w.Viol = append(w.Viol, Violation{Prop: prop, Rule: "in-dialog-request-sent-to-several-backends", Msg: id,
 					Detail: fmt.Sprintf("request %s of dialog %s was emitted to %v", id, mod.id, dsts)})
 			}
